@@ -82,7 +82,7 @@ def fnum(v) -> Any:
 # generation: tree + phase-1 constraints
 # ------------------------------------------------------------------------------------------------
 
-def gen_tree(rng: random.Random, depth: int) -> dict:
+def gen_tree(rng: random.Random, depth: int, pair_p: float = 0.3) -> dict:
     g = ptgen.Gen(rng, depth)
     for _ in range(30):
         env, values = g.params()
@@ -112,8 +112,48 @@ def gen_tree(rng: random.Random, depth: int) -> dict:
             for n in mnames:
                 k = rng.random()
                 mm[n] = None if k < 0.3 else (n if k < 0.7 else rng.choice(['p', 'r']))
-        return {'spec': ptgen.strip(spec), 'values': dict(values), 'cm': cm, 'mm': mm, 'counter': g.counter}
+        spec = ptgen.strip(spec)
+        values = dict(values)
+        if rng.random() < pair_p:
+            spec = wrap_pair(rng, spec, pt.parameter_names, values, g.fresh)
+        return {'spec': spec, 'values': values, 'cm': cm, 'mm': mm, 'counter': g.counter}
     raise core.MachineryError('generator failed to draw a well-formed template')
+
+
+def wrap_pair(rng: random.Random, spec: dict, declared, values: dict, fresh) -> dict:
+    """`MappingPT(MappingPT(root, inner), outer)` with an ANONYMOUS, constraint free inner mapping (the constructor
+    merges it into the outer one) and an outer mapping whose targets are themselves mapped names: rename chains
+    `{u1: u2, u2: u3}` in both orders, swaps / cycles, with and without offsets, over fresh names or over the root's
+    own parameter names (inner mapping = identity).  The two mappings have to be composed SIMULTANEOUSLY; `values` is
+    rewritten so that the root sees the values it saw before."""
+    usable = sorted(n for n in declared if n in values and n != 't')
+    if not usable:
+        return spec
+    k = min(len(usable), rng.choice([2, 2, 3]))
+    ps = rng.sample(usable, k)
+    same = rng.random() < 0.4
+    us = list(ps) if same else [fresh('u') for _ in ps]
+    w = fresh('u')
+    shape = rng.choice(['chain', 'rchain', 'cycle']) if k >= 2 else 'chain'
+    if shape == 'chain':
+        targets = us[1:] + [w]
+    elif shape == 'rchain':
+        targets = [w] + us[:-1]
+    else:
+        targets = us[1:] + us[:1]
+    old = dict(values)
+
+    def plus(name, off):
+        return name if off == 0 else ('%s + %d' % (name, off) if off > 0 else '%s - %d' % (name, -off))
+    inner_pm, outer_pm = [], []
+    for p, u, tgt in zip(ps, us, targets):
+        ioff = 0 if same else rng.choice([0, 0, 1, -1])
+        ooff = rng.choice([0, 0, 0, 1, -2])
+        inner_pm.append([p, plus(u, ioff)])
+        outer_pm.append([u, plus(tgt, ooff)])
+        values[tgt] = old[p] - ioff - ooff
+    inner = {'k': 'map', 'body': spec, 'pm': inner_pm, 'mm': None, 'cm': None, 'cons': [], 'nocons': True}
+    return {'k': 'map', 'body': inner, 'pm': outer_pm, 'mm': None, 'cm': None, 'cons': [], 'pair': shape}
 
 
 def _walk(node: dict, path: Tuple, names: List[str], maps: List[dict], out: List):
@@ -188,6 +228,8 @@ def decorate(rng: random.Random, tree: dict, density: float = 0.55, self_range_p
     for path, node, names, maps in nodes:
         if node['k'] not in CONSTRAINABLE:
             continue
+        if node.get('nocons') and rng.random() < 0.85:
+            continue                                   # stays mergeable (anonymous and constraint free)
         node.setdefault('cons', [])
         node['cons'] = list(node['cons'] or [])
         n_new = 0
@@ -520,6 +562,10 @@ def evaluate_case(case: dict) -> Optional[dict]:
     if case.get('param_pool') is not None:
         # "exactly the declared names": the values are drawn from the pool for whatever the implementation declares
         case = dict(case, params={n: case['param_pool'][n] for n in sorted(pt.parameter_names) if n in case['param_pool']})
+        if case.get('extra_pool') is not None:
+            # ... plus values for names the implementation does NOT declare
+            extra = {n: v for n, v in case['extra_pool'].items() if n not in pt.parameter_names}
+            case = dict(case, base_params=dict(case['params']), params=dict(case['params'], **extra), extra=sorted(extra))
     rec: Dict[str, Any] = {'case': {k: v for k, v in case.items() if k not in ('observe',)},
                            'stream': case.get('stream', 'given')}
     rec['impl'] = run_impl(pt, case['params'], case['cm'], case['mm'])
@@ -592,8 +638,9 @@ def judge(rec: dict) -> Tuple[List[dict], List[str]]:
                       'what': 'instantiation returns normally although a visited node needs a parameter that is missing'})
     if impl['status'] == 'error' and impl['error'] == 'constraint_violation' and n_false == 0:
         viols.append({'clause': 'rejects-satisfying',
-                      'what': 'ParameterConstraintViolation (%s) although every constraint of every visited node evaluates '
-                              'true (%d constraints)' % (impl.get('constraint', ''), n_true)})
+                      'what': 'ParameterConstraintViolation (%s) although no constraint of any visited node evaluates false '
+                              '(%d evaluate true, %d cannot be evaluated)' % (impl.get('constraint', ''), n_true,
+                                                                               len(cons) - n_true)})
     # -- declared names suffice ------------------------------------------------------------------------
     exactly_declared = set(case['params']) >= set(rec['declared'])
     if exactly_declared and impl['status'] == 'error' and \
@@ -675,6 +722,9 @@ def assess(ctx: core.Ctx, rec: dict, count=True) -> Tuple[List[dict], List[str],
         if any(n.get('self_range') for n in ptgen.spec_nodes(rec['case']['spec'])) or \
                 rec['case'].get('label', '').startswith('self-range'):
             ctx.count('with-loop-range-naming-its-own-index')
+        if any(n.get('pair') for n in ptgen.spec_nodes(rec['case']['spec'])) or \
+                rec['case'].get('label', '').startswith('nested-map'):
+            ctx.count('with-composed-anonymous-mapping-pair')
         if rec.get('needs_more'):
             ctx.count('missing:implementation-needs-more-than-model')
     return viols, diffs, known
@@ -896,6 +946,7 @@ def exhaustive_cases() -> List[dict]:
                     out.append({'spec': spec, 'params': params, 'cm': {}, 'mm': None, 'stream': 'exhaustive',
                                 'label': '%s/%s/%s/%s' % (kind, ctxname, rel, off)})
     out.extend(self_range_cases())
+    out.extend(nested_map_cases())
     return out
 
 
@@ -922,6 +973,72 @@ def self_range_cases() -> List[dict]:
         for pname, spec in parents.items():
             out.append({'spec': copy.deepcopy(spec), 'params': {}, 'param_pool': pool, 'cm': {}, 'mm': None,
                         'stream': 'exhaustive', 'label': 'self-range/%s/%s' % (rname, pname)})
+    return out
+
+
+NESTED_BODIES = ('table', 'func', 'seq', 'named-map')
+NESTED_INNER = {'rename': [['v', 'x1'], ['d', 'x2']], 'sum': [['v', 'x1 + x2'], ['d', 'x2']], 'identity': None}
+NESTED_OUTER = {'chain': [['x1', 'x2'], ['x2', 'c']], 'rchain': [['x2', 'x1'], ['x1', 'c']],
+                'swap': [['x1', 'x2'], ['x2', 'x1']], 'expr': [['x1', 'x2 + c'], ['x2', 'c']],
+                'plain': [['x1', 'x1'], ['x2', 'x2']]}
+
+
+def _eval_simple(expr: str, env: Dict[str, F]) -> F:
+    return F(eval(expr, {'__builtins__': {}}, dict(env)))      # noqa: S307 -- own literals: names, +, numbers
+
+
+def nested_map_cases() -> List[dict]:
+    """two DIRECTLY nested mappings, composed by the user: an anonymous, constraint free inner mapping (the constructor
+    merges it into the outer one) below an outer mapping that is a rename chain (both orders), a swap, a chain with
+    expressions or plain; the node below (4 kinds) carries the constraint `2*v + d REL K` with K below / on / above
+    the value the SIMULTANEOUS composition gives (computed here layer by layer, judged by Lean on the composed tree).
+    Assignments: exactly the names the implementation declares; plus values for the inner names; minus one name."""
+    out = []
+    eighth = F(1, 8)
+    pool_f = {'a': F(1, 2), 'b': F(3, 2), 'c': F(5, 2), 'v': F(1, 4), 'd': F(1)}
+    for bname in NESTED_BODIES:
+        for iname, ipm in NESTED_INNER.items():
+            x1, x2 = ('v', 'd') if ipm is None else ('a', 'b')
+            ren = lambda t: t.replace('x1', x1).replace('x2', x2)      # noqa: E731
+            inner_pm = [['v', 'v'], ['d', 'd']] if ipm is None else [[k, ren(e)] for k, e in ipm]
+            for oname, opm in NESTED_OUTER.items():
+                outer_pm = [[ren(k), ren(e)] for k, e in opm]
+                env1 = dict(pool_f)
+                env1.update({k: _eval_simple(e, pool_f) for k, e in outer_pm})
+                env2 = dict(env1)
+                env2.update({k: _eval_simple(e, env1) for k, e in inner_pm})
+                val = 2 * env2['v'] + env2['d']
+                truly_declared = sorted({n for _k, e in outer_pm for n in pool_f if n in e.replace(' ', '').split('+')})
+
+                def make(cons):
+                    if bname == 'seq':
+                        body = {'k': 'seq', 'subs': [{'k': 'func', 'ch': 'A', 'dur': 'd', 'expr': 'v', 'meas': [], 'cons': []}],
+                                'meas': [], 'cons': cons}
+                    elif bname == 'named-map':
+                        body = {'k': 'map', 'id': 'named', 'pm': [['v', 'v'], ['d', 'd']], 'mm': None, 'cm': None, 'cons': cons,
+                                'body': {'k': 'func', 'ch': 'A', 'dur': 'd', 'expr': 'v', 'meas': [], 'cons': []}}
+                    elif bname == 'func':
+                        body = {'k': 'func', 'ch': 'A', 'dur': 'd', 'expr': 'v', 'meas': [], 'cons': cons}
+                    elif bname == 'table':
+                        body = {'k': 'table', 'entries': [['A', [['0', 'v', 'hold'], ['d', 'v', 'hold']]]], 'meas': [], 'cons': cons}
+                    else:
+                        body = {'k': 'point', 'chans': ['A'], 'entries': [['0', 'v', 'hold'], ['d', 'v', 'hold']], 'meas': [],
+                                'cons': cons}
+                    inner = {'k': 'map', 'body': body, 'pm': inner_pm, 'mm': None, 'cm': None, 'cons': []}
+                    return {'k': 'map', 'body': inner, 'pm': outer_pm, 'mm': None, 'cm': None, 'cons': []}
+                pool = {k: fnum(v) for k, v in pool_f.items()}
+                label = 'nested-map/%s/%s/%s' % (bname, iname, oname)
+                for rel in ('<', '<=', '=='):
+                    for off in (-eighth, F(0), eighth):
+                        con = '2*v + d %s %s' % (rel, ptgen.fstr(val + off))
+                        out.append({'spec': make([con]), 'params': {}, 'param_pool': pool, 'cm': {}, 'mm': None,
+                                    'stream': 'exhaustive', 'label': '%s/%s/%s' % (label, rel, off)})
+                sat = ['2*v + d <= %s' % ptgen.fstr(val)]
+                out.append({'spec': make(sat), 'params': {}, 'param_pool': pool, 'extra_pool': {k: v + 3 for k, v in pool.items()},
+                            'cm': {}, 'mm': None, 'stream': 'extra', 'label': label + '/extra', 'observe': True})
+                for n in truly_declared:
+                    out.append({'spec': make(sat), 'params': {}, 'param_pool': {k: v for k, v in pool.items() if k != n},
+                                'cm': {}, 'mm': None, 'stream': 'missing', 'removed': n, 'label': label + '/missing-' + n})
     return out
 
 
@@ -958,7 +1075,10 @@ def run(ctx: core.Ctx):
                 'indices, mapped names and constraint-only parameters; constants placed on the boundary of the values the '
                 'Lean enumeration reports; five assignment streams per tree (exactly the declared names satisfying all; one '
                 'visible constraint violated; one constraint of a node that is not visited violated; extra names incl. inner '
-                'mapping names, loop indices and the reserved t; one declared name removed); plus the exhaustive space below. '
+                'mapping names, loop indices and the reserved t; one declared name removed); 30 % of the trees are wrapped in a '
+                'pair of directly nested mappings (anonymous constraint free inner mapping that the constructor merges, outer '
+                'mapping a rename chain / swap / cycle over mapped names) which the Lean side sees as composed; plus the '
+                'exhaustive space below. '
                 'Non-trivial = at least one constraint is visible and the tree has more than one node; distinct by request line')
     ctx.assumptions = [
         'IEEE-754 arithmetic is exact on the generated dyadic numbers, so constraints on the boundary compare exactly',
@@ -974,7 +1094,11 @@ def run(ctx: core.Ctx):
     ctx.exhaustive_spaces.append('8 constrainable node kinds x 6 contexts (plain, below a renaming mapping, below an iteration '
                                  'using the index, below repetition 0 / 2, inside an atomic template) x 3 relations x constant '
                                  'below / on / above the boundary, plus iterations whose range names the '
-                                 'loop\'s own index (5 range shapes x 7 parents): %d cases' % len(ex))
+                                 'loop\'s own index (5 range shapes x 7 parents), plus directly nested mappings composed by '
+                                 'the user (anonymous constraint free inner mapping: rename / sum / identity; outer mapping: '
+                                 'rename chain in both orders / swap / chain with expressions / plain; 4 node kinds below '
+                                 'carrying a constraint below / on / above the boundary in 3 relations; exactly the declared '
+                                 'names, extra inner names, one name missing): %d cases' % len(ex))
     recs = [r for r in _pool_map(ctx, evaluate_case, ex) if r is not None]
     # random trees: phase A (draw + probe), phase B (streams)
     depth = 4 if ctx.quick else 5
